@@ -145,3 +145,52 @@ Print Assumptions C15_nonstring_refuted.
 Theorem C15_nil_value_unreadable : parse_dn (render_dn [[(cn, GNil)]]) = None.
 Proof. exact nil_value_unreadable. Qed.
 Print Assumptions C15_nil_value_unreadable.
+
+(* positions next to multi-byte characters (instances of C15_escape_by_code_point): e-acute
+   then space; space, U+1F600, space; combining acute then '#'; '#' then combining acute;
+   euro sign then two spaces *)
+Example C15_multibyte_positions :
+  escape_gen true (utf8 [233; 32]) = utf8 [233; 92; 32] /\
+  escape_gen true (utf8 [32; 128512; 32]) = utf8 [92; 32; 128512; 92; 32] /\
+  escape_gen true (utf8 [769; 35]) = utf8 [769; 35] /\
+  escape_gen true (utf8 [35; 769]) = utf8 [92; 35; 769] /\
+  escape_gen true (utf8 [8364; 32; 32]) = utf8 [8364; 32; 92; 32].
+Proof. exact multibyte_positions. Qed.
+
+(* ---- the two names of one certificate (model of getCertificateInfo, internal/file/der.go:82
+   and :87: cert_names = two independent calls of FromRawDN) ----
+   THE PROPERTY AT PAIR LEVEL: for ALL subjects s and issuers i, however related (equal, the
+   same RDNs in another order, regrouped, other string types, ...), the Subject text reads back
+   as s and the Issuer text reads back as i (reads_as n = the non-empty RDNs of n, most specific
+   first, as displayed type and value) *)
+Theorem C15_certificate_pair : forall ds di s i, name_ok s -> name_ok i ->
+  parse_rdns (fst (cert_names (ds, Some s) (di, Some i))) = reads_as s /\
+  parse_rdns (snd (cert_names (ds, Some s) (di, Some i))) = reads_as i.
+Proof. exact cert_names_roundtrip. Qed.
+Print Assumptions C15_certificate_pair.
+
+(* the Issuer line repeats the Subject line only when issuer and subject are the same name *)
+Theorem C15_certificate_pair_same_text : forall ds di s i, name_ok s -> name_ok i ->
+  fst (cert_names (ds, Some s) (di, Some i)) = snd (cert_names (ds, Some s) (di, Some i)) ->
+  map (map akey) (filter nonempty (rev s)) = map (map akey) (filter nonempty (rev i)).
+Proof. exact cert_names_same_text. Qed.
+Print Assumptions C15_certificate_pair_same_text.
+
+(* every certificate of a PEM bundle / Java keystore (carrier_names: PEMFile, parseJKSEntry) *)
+Theorem C15_carrier_pairs : forall certs : list (decoded_name * decoded_name),
+  Forall (fun c => name_ok (snd (fst c)) /\ name_ok (snd (snd c))) certs ->
+  map (fun t => (parse_rdns (fst t), parse_rdns (snd t)))
+      (carrier_names (map (fun c => (as_raw (fst c), as_raw (snd c))) certs))
+  = map (fun c => (reads_as (snd (fst c)), reads_as (snd (snd c)))) certs.
+Proof. exact carrier_names_roundtrip. Qed.
+Print Assumptions C15_carrier_pairs.
+
+(* related names meet the hypotheses and are shown differently: RDNs in another order; two RDNs
+   against one multi-valued RDN *)
+Example C15_related_names_ok : name_ok acme_subject /\ name_ok acme_issuer /\ name_ok two_rdns /\ name_ok one_rdn.
+Proof. exact related_names_ok. Qed.
+Example C15_related_names_text :
+  cert_names ([], Some acme_subject) ([], Some acme_issuer)
+    = (bs "CN=Acme CA,O=Acme\, Inc.,C=US", bs "CN=Acme CA,C=US,O=Acme\, Inc.") /\
+  cert_names ([], Some two_rdns) ([], Some one_rdn) = (bs "O=a\+b,CN=x", bs "CN=x+O=a\+b").
+Proof. exact related_names_text. Qed.
